@@ -486,6 +486,24 @@ def m_slice_last(M, a, c, fr):
     return opt_some(Ref(Cell(xs[-1]))) if xs else opt_none()
 
 
+def m_vec_dedup_by(M, a, c, fr):
+    """Vec::dedup_by(same_bucket): std's documented behaviour - walk left to right, call same_bucket(&mut cur, &mut last_kept) and drop
+    `cur` when it returns true (the closure sees the elements in the opposite order from the slice order).  Concrete length on this path."""
+    v = M.load(a[0])
+    if not isinstance(v, VecV) or not isinstance(a[0], Ref): raise Inconclusive('dedup_by of %r' % (v,))
+    n = M.concrete(v.len, 'dedup_by.len')
+    if n < 2: return []
+    w = 1                                                   # elems[:w] are kept
+    for r in range(1, n):
+        cur = Ref(a[0].cell, a[0].path + (('e', r),)); last = Ref(a[0].cell, a[0].path + (('e', w - 1),))
+        same = M.concrete_bool(M.call_value(a[1], [cur, last]), 'dedup_by')
+        v = M.load(a[0])
+        if not same:
+            v.elems[w] = v.elems[r]; w += 1
+    v = M.load(a[0]); del v.elems[w:]; v.len = BV64(w)
+    return []
+
+
 def m_slice_reverse(M, a, c, fr):
     v = M.load(a[0])
     if not isinstance(v, VecV): raise Inconclusive('reverse of %r' % (v,))
@@ -695,6 +713,10 @@ def m_trim_start_matches(M, a, c, fr):
 
 
 def m_strip_prefix(M, a, c, fr):
+    x = deref(M, a[0])
+    if isinstance(x, Tok):       # opaque string: whether it has the prefix is an uninterpreted predicate; the remainder is another opaque string
+        if M.concrete_bool(z3.Bool('starts_with(%s,%r)' % (x.name, deref(M, a[1]))), 'strip_prefix'): return opt_some(Tok('strip_prefix(%s)' % x.name))
+        return opt_none()
     bs, pat = sbytes(M, a[0]), sbytes(M, a[1])
     if len(bs) < len(pat): return opt_none()
     hit = z3.And([bs[t] == pat[t] for t in range(len(pat))]) if pat else z3.BoolVal(True)
@@ -770,6 +792,16 @@ def m_into_same(M, a, c, fr): return a[0]
 
 
 def m_phantom_default(M, a, c, fr): return None
+
+
+def m_int_default(M, a, c, fr):
+    """<uN/iN/usize/isize/bool as Default>::default(): zero / false (std's documented value)."""
+    import re as _re
+    m = _re.search(r'<(u8|u16|u32|u64|u128|usize|i8|i16|i32|i64|i128|isize|bool) as Default>', c if isinstance(c, str) else str(c))
+    t = m.group(1)
+    if t == 'bool': return z3.BoolVal(False)
+    w = 64 if t in ('usize', 'isize') else int(t[1:])
+    return bv(0, w)
 
 
 def m_saturating_add(M, a, c, fr):
@@ -1153,7 +1185,7 @@ MODELS = [
     (r'Vec::<.*>::new', m_vec_new), (r'<Vec<.*> as Default>::default', m_vec_new),
     (r'Vec::<.*>::len', m_vec_len), (r'core::slice::<impl \[.*\]>::len', m_vec_len),
     (r'Vec::<.*>::is_empty', m_vec_is_empty), (r'core::slice::<impl \[.*\]>::is_empty', m_vec_is_empty),
-    (r'Vec::<.*>::push', m_vec_push),
+    (r'Vec::<.*>::push', m_vec_push), (r'Vec::<.*>::dedup_by::<.*>', m_vec_dedup_by),
     (r'<Vec<.*> as Deref(Mut)?>::deref(_mut)?', m_ident), (r'Vec::<.*>::as_(mut_)?slice', m_ident),
     (r'<(Vec<.*>|\[.*\]) as Index(Mut)?<usize>>::index(_mut)?', m_index),
     (r'<(Vec<.*>|\[.*\]) as Index(Mut)?<(std::ops::|core::ops::)?Range\w*(<usize>)?>>::index(_mut)?', m_index_range),
@@ -1195,7 +1227,7 @@ MODELS = [
     (r'core::num::<impl u8>::is_ascii_digit', u8_pred(48, 57)),
     (r'core::num::<impl u8>::is_ascii_alphabetic', m_u8_alpha), (r'core::num::<impl u8>::is_ascii_alphanumeric', m_u8_alnum),
     (r'<String as Deref(Mut)?>::deref(_mut)?', m_ident), (r'String::as_str', m_ident), (r'<String as AsRef<str>>::as_ref', m_ident), (r'<String as Borrow<str>>::borrow', m_ident),
-    (r'<(&?str|String|S|&S) as AsRef<str>>::as_ref', m_str_to_owned), (r'<(&?str|String) as Borrow<str>>::borrow', m_str_to_owned),
+    (r'<(&?str|String|&?[A-Z]) as AsRef<str>>::as_ref', m_str_to_owned), (r'<(&?str|String) as Borrow<str>>::borrow', m_str_to_owned),
     (r'<&str as Into<String>>::into', m_str_to_owned), (r'<String as From<&str>>::from', m_str_to_owned),
     (r'(alloc|std)::string::<impl ToString for str>::to_string|<str as ToString>::to_string|<str as ToOwned>::to_owned', m_str_to_owned),
     # TypeId
@@ -1218,6 +1250,7 @@ MODELS = [
     (r'<.* as Clone>::clone', m_clone),
     (r'(std|core)::mem::replace::<.*>', m_replace), (r'(std|core)::mem::take::<.*>', m_take),
     (r'<PhantomData<.*> as Default>::default', m_phantom_default),
+    (r'<(u8|u16|u32|u64|u128|usize|i8|i16|i32|i64|i128|isize|bool) as Default>::default', m_int_default),
     (r'core::panicking::panic(_fmt|_display|_explicit)?(::<.*>)?|panic_fmt|std::rt::begin_panic.*|core::panicking::\w+', m_panic),
     (r'core::num::<impl (usize|u32|u64)>::saturating_add', m_saturating_add),
     (r'core::num::<impl (usize|u8|u16|u32|u64)>::wrapping_add', lambda M, a, c, fr: a[0] + a[1]), (r'core::num::<impl (usize|u8|u16|u32|u64)>::wrapping_sub', lambda M, a, c, fr: a[0] - a[1]),
